@@ -1,7 +1,11 @@
 (* Case-line interpreter for C08.
    C <chunk> <chunk> ...            TlsClientHelloReader::new(), add_bytes per chunk (chunk: hex, "-" = empty)
    P <cap> <k>:<chunk> <k>:<chunk>  process_ipv4_packet on a TtlCache of capacity <cap>; <k> = flow number
-   result: one token per chunk:  -  |  ERR  |  the C04 result line of the signature with '|' for ' '
+   W <workers> <nconn> <order> <chunk> ...   huginn_net_tls::WorkerPool (batch 32), <nconn> connections delivering the same
+                                    chunks back-to-back; result "<number of results> <token | MIXED | ->".  MODEL: every
+                                    connection behaves as one connection alone on a worker's flow table (C08_analyzer holds
+                                    for any table content; dispatch keeps a connection on one worker in FIFO order)
+   result (C, P): one token per chunk:  -  |  ERR  |  the C04 result line of the signature with '|' for ' '
    SPEC column: exactly-once expectation when the chunks start with a complete ClientHello record
    (P: one connection, first segment admitted); "-" otherwise.  known = 1 (P only): a later segment of
    the connection itself starts like a handshake record. *)
@@ -103,6 +107,29 @@ Definition run_line (l : bytes) : bytes :=
                      (match verdict with Some (o, _) => toks_p o | None => bs "-" end)
                      (match verdict with Some (_, kn) => kn | None => false end)
             | _, _ => bad end
+        | _ => bad end
+      else if bytes_eqb k (bs "W") then
+        match rest with
+        | w :: n :: o :: chunks_t =>
+            match read_N w, read_N n, all_some (map read_hex_or_dash chunks_t) with
+            | Some _, Some nconn, Some cs =>
+                let sigs := filter (fun x => match x with RSig _ => true | _ => false end)
+                                   (flow_outs 4096 [] (map (fun c => (0, c)) cs)) in
+                let show (per : list tls_result) :=
+                  show_N (nconn * lenN per) ++ [sp] ++
+                  match per with
+                  | [] => bs "-"
+                  | x :: r => if forallb (fun y => bytes_eqb (tok_p y) (tok_p x)) r then tok_p x else bs "MIXED"
+                  end in
+                let verdict :=
+                  match cs, spec_for cs with
+                  | c1 :: _, Some (o, true) =>
+                      if looks_like_record_start c1 && calm (after_completion 0 (needed_of (concat cs)) cs)
+                      then Some (filter (fun x => match x with RSig _ => true | _ => false end) o) else None
+                  | _, _ => None
+                  end in
+                out3 (show sigs) (match verdict with Some o => show o | None => bs "-" end) false
+            | _, _, _ => bad end
         | _ => bad end
       else bad
   | _ => bad end.
